@@ -79,26 +79,28 @@ PhaseVal(e, ph, pq) == IF e.kind \in SymKinds THEN (TabTotal(e, pq) \div 3) * Sc
 \* 3-phase total of one element as the symmetric power flow sees it (build_bus.py:640 / 646-651, 690-694)
 TotalVal(e, pq) == IF e.kind \in SymKinds THEN TabTotal(e, pq) * ScNum(e) ELSE Sum3(TabPhase(e, pq)) * ScNum(e)
 
-RECURSIVE SumTo(_, _)
-SumTo(f, n) == IF n = 0 THEN 0 ELSE f[n] + SumTo(f, n - 1)
-SumOver(c, F(_)) == SumTo([i \in 1..N(c) |-> F(i)], N(c))
-
 \* runpp_3ph._load_mapping (runpp_3ph.py:94-132): S[phase][typ][bus] = sum over the live elements of connection typ
-Sabc(c, b, ph, typ, pq) ==
-  SumOver(c, LAMBDA i : IF Live(c, i) /\ El(c, i).bus = b /\ El(c, i).conn = typ
-                        THEN Sign(El(c, i)) * PhaseVal(El(c, i), ph, pq) ELSE 0)
+\* (runpp_3ph.py:60  active = _is_elements & (type == typ);  :122-128  _sum_by_group per bus)
+Term3(c, i, b, ph, typ, pq) == IF Live(c, i) /\ El(c, i).bus = b /\ El(c, i).conn = typ
+                               THEN Sign(El(c, i)) * PhaseVal(El(c, i), ph, pq) ELSE 0
+RECURSIVE SabcN(_, _, _, _, _, _)
+SabcN(c, b, ph, typ, pq, n) == IF n = 0 THEN 0 ELSE Term3(c, n, b, ph, typ, pq) + SabcN(c, b, ph, typ, pq, n - 1)
+Sabc(c, b, ph, typ, pq) == SabcN(c, b, ph, typ, pq, N(c))
+Mapping(c) == [b \in Bus |-> [typ \in Conn |-> [pq \in {"p", "q"} |-> [ph \in Ph |-> Sabc(c, b, ph, typ, pq)]]]]
 \* build_bus._calc_pq_elements_and_add_on_ppc (symmetric route): PD/QD of the bus
-SymBus(c, b, pq) ==
-  SumOver(c, LAMBDA i : IF Live(c, i) /\ El(c, i).bus = b THEN Sign(El(c, i)) * TotalVal(El(c, i), pq) ELSE 0)
+Term1(c, i, b, pq) == IF Live(c, i) /\ El(c, i).bus = b THEN Sign(El(c, i)) * TotalVal(El(c, i), pq) ELSE 0
+RECURSIVE SymBusN(_, _, _, _)
+SymBusN(c, b, pq, n) == IF n = 0 THEN 0 ELSE Term1(c, n, b, pq) + SymBusN(c, b, pq, n - 1)
+SymBus(c, b, pq) == SymBusN(c, b, pq, N(c))
 
 \* ---- classification ----------------------------------------------------------------------------------------------
 ElemSymmetric(e) == e.kind \in SymKinds \/ e.pat = "bal"
 \* the antecedent of C11's first sentence: "a network whose loads and generation are all symmetric"
 AllSymmetric(c) == \A i \in 1..N(c) : Live(c, i) => ElemSymmetric(El(c, i))
-BusBalanced(c, b) == \A typ \in Conn : \A pq \in {"p", "q"} :
-                        Sabc(c, b, 1, typ, pq) = Sabc(c, b, 2, typ, pq) /\ Sabc(c, b, 2, typ, pq) = Sabc(c, b, 3, typ, pq)
-\* physically balanced: what runpp_3ph is given per (bus, connection) is the same in the three phases
-NetBalanced(c) == \A b \in Supplied(c) : BusBalanced(c, b)
+\* physically balanced: what runpp_3ph is given per (bus, connection) is the same in the three phases (m = Mapping(c))
+BalancedMap(m, S) == \A b \in S : \A typ \in Conn : \A pq \in {"p", "q"} :
+                        m[b][typ][pq][1] = m[b][typ][pq][2] /\ m[b][typ][pq][2] = m[b][typ][pq][3]
+NetBalanced(c) == BalancedMap(Mapping(c), Supplied(c))
 Class(c) == IF AllSymmetric(c) THEN "balanced" ELSE "unbalanced"
 HasDelta(c, b) == \E i \in 1..N(c) : Live(c, i) /\ El(c, i).bus = b /\ El(c, i).conn = "delta"
 \* A delta-connected element's p_a/p_b/p_c are the powers of the branches ab/bc/ca (runpp_3ph.py:467-472, 490); the
